@@ -183,7 +183,7 @@ func init() {
 	c11r.Keys = []string{"k0", "k1", "k2"}
 	sup.Register(&sup.Check{
 		Prop: "C11", Level: "exploration",
-		Rule:        "engine A on 2 buckets x 4 collections (the default one, the same collection name in two scopes, two collections in one scope) that all hold the same key names: after every step the same key is re-read in every other collection and bucket and must be byte-identical to its last read-back (isolation frame), every other collection's feed must stay silent and events must carry the addressed collection's id; periodic full sweeps; PurgeTombstones, DropDataStore + re-create, Touch in the op mix; (non-interference) two buckets get the same history on c0, one of them also gets writes, WithMeta writes, deletions and drops on c1/c2: non-stale views (5 parameter shapes x 4 views) and 3 SQL statements over c0 must return identical results in both; (stale DataStore) handle A drops a collection and creates another (or the same name again), handle B then issues 14 kinds of writes through the DataStore it still holds for the dropped collection: every key of every other collection must keep its read-back and their feeds stay silent; the non-interference run also compares the live feed of c0 (key, opcode, expiry, datatype) between the two buckets; an expression index is created on a sibling collection in half of the non-interference runs; (stale DataStore) a DataStore asked for by name after the drop and re-creation must be the collection that exists now; the bucket's earliest deadline may sit in a collection that is dropped before it comes due; (failed view query) a view query failing part-way on a sibling collection must not keep the other collections from answering (10 s per probe); the sibling's index is also created with a filter containing a top-level OR; sibling-expiry order far-deadline-in-lower-collection; cell = (op variant, pre-state class, outcome, bucket type)",
+		Rule:        "engine A on 2 buckets x 4 collections (the default one, the same collection name in two scopes, two collections in one scope) that all hold the same key names: after every step the same key is re-read in every other collection and bucket and must be byte-identical to its last read-back (isolation frame), every other collection's feed must stay silent and events must carry the addressed collection's id; periodic full sweeps; PurgeTombstones, DropDataStore + re-create, Touch in the op mix; (non-interference) two buckets get the same history on c0, one of them also gets writes, WithMeta writes, deletions and drops on c1/c2: non-stale views (5 parameter shapes x 4 views) and 3 SQL statements over c0 must return identical results in both; (stale DataStore) handle A drops a collection and creates another (or the same name again), handle B then issues 14 kinds of writes through the DataStore it still holds for the dropped collection: every key of every other collection must keep its read-back and their feeds stay silent; the non-interference run also compares the live feed of c0 (key, opcode, expiry, datatype) between the two buckets; an expression index is created on a sibling collection in half of the non-interference runs; (stale DataStore) a DataStore asked for by name after the drop and re-creation must be the collection that exists now; the bucket's earliest deadline may sit in a collection that is dropped before it comes due; (failed view query) a view query failing part-way on a sibling collection must not keep the other collections from answering (10 s per probe); the sibling's index is also created with a filter containing a top-level OR; sibling-expiry order far-deadline-in-lower-collection; (drop by a stranger) a feed started on a collection that is then dropped through a handle that never opened it and created again must not deliver the new collection's documents; cell = (op variant, pre-state class, outcome, bucket type)",
 		Assumptions: append([]string{"inside engine A DropDataStore is exercised through the only open handle of the bucket (a sibling handle keeps a stale Collection object by design of the API); what that stale object may do to OTHER collections is judged by the stale-handle part, what it returns itself is not"}, kvAssume...),
 		Parts: []sup.Part{
 			exhaustivePart("exhaustive-sibling-has-key", c11),
@@ -191,6 +191,7 @@ func init() {
 			{Name: "expiry-in-sibling-collection", Timeout: 120 * time.Second, Count: func(t string) int { return tierN(t, 4, 40) }, Run: siblingExpiryBatch},
 			nonInterferencePart("views-queries-noninterference", 200, 3000),
 			{Name: "stale-handle-after-drop", Timeout: 60 * time.Second, Count: func(t string) int { return tierN(t, 120, 2400) }, Run: staleHandleScenario},
+			{Name: "drop-through-a-handle-that-never-opened", Timeout: 60 * time.Second, Count: func(t string) int { return tierN(t, 60, 1200) }, Run: dropByStrangerScenario},
 			{Name: "failed-view-query-on-a-sibling", Timeout: 150 * time.Second, Count: func(t string) int { return tierN(t, 6, 40) }, Run: failedViewQueryScenario},
 		},
 		Floor: cellsFloor(300),
